@@ -381,6 +381,9 @@ def units(tier):
     for gname, ops in groups:
         us.append(Unit('step/k2/%s' % gname, lambda ctx, ops=ops: h_step(ctx, 2, ops), hash_const=True, reset=reset,
                        must_cover=smust if gname != 'others' else smust[:2], max_paths=400000, max_seconds=1100, weight=60))
+    # from two routes already on the wire (announce, announce, flush), any two operations of the full alphabet: bulk
+    # operations (withdraw-all, clear, resend) meeting what is still queued for OTHER resident routes
+    us.append(_u('hist/full/n5/two-on-the-wire', ('alias', 'withdraw-present'), n=5, alphabet=FULL, prefix=('announce:x', 'announce:x', 'flush'), nwd=0, weight=60))
     us.append(_u('hist/parser-shaped/n3', ('alias',), n=3, alphabet=('announce:x', 'announce:z', 'withdraw', 'send1', 'flush'),
                  pool_names=('x', 'z'), weight=5))
     if th:
